@@ -23,6 +23,7 @@ type c18Scenario struct {
 	FailAt     int        `json:"fail_keepalive_k,omitempty"`
 	OnTick     bool       `json:"end_on_a_tick,omitempty"`
 	RefuseDial bool       `json:"reconnection_refused,omitempty"`
+	PeerDrops  bool       `json:"peer_drops_when_keepalive_fails,omitempty"` // the read side notices the loss while the keepalive is closing the transport
 	Stalled    bool       `json:"peer_stops_reading,omitempty"` // the server stops reading (a sender and then the keepalive block in write) and later closes the stream
 	EndAfterNs int64      `json:"end_after_ns,omitempty"`
 	Ticks      int        `json:"observe_ticks"`
@@ -54,7 +55,8 @@ func runC18(e *Engine, g G, o RunOpt) RunInfo {
 	sc.End = []string{"none", "cut", "disconnect", "stream-error", "ka-write-fails", "server-close"}[g.Weighted("end", 2, 3, 3, 2, 4, 3)]
 	sc.Block = sc.End != "none" && g.Pct("callback-blocks", 30)
 	// ... or reconnects from within the callback, the way a StreamManager does
-	sc.Reconnect = !sc.Block && !sc.Client.WebSocket && (sc.End == "cut" || sc.End == "server-close") && g.Pct("reconnect-in-callback", 35)
+	sc.Reconnect = !sc.Block && !sc.Client.WebSocket && (sc.End == "cut" || sc.End == "server-close" || sc.End == "ka-write-fails") && g.Pct("reconnect-in-callback", 35)
+	sc.PeerDrops = sc.End == "ka-write-fails" && !sc.Client.WebSocket && g.Bool("peer-drops")
 	sc.Ticks = g.Range("ticks", 1, 9)
 	if sc.End == "ka-write-fails" {
 		sc.FailAt = g.Range("failk", 1, 8)
@@ -189,9 +191,31 @@ func runC18(e *Engine, g G, o RunOpt) RunInfo {
 			tEnd = -1
 		case "ka-write-fails":
 			// the k-th keepalive fails at t0+k*interval; then the transport must be closed
+			if sc.PeerDrops {
+				// ... and the peer drops the connection at that very instant: the receiver sees
+				// the end while the keepalive is still closing the transport
+				failed := false
+				cli.OnWrite = func(p []byte, n int, err error) {
+					if err != nil {
+						failed = true
+					}
+				}
+				e.Go("peer-drops", func() {
+					if !e.WaitUntilFor("peer-drops", time.Duration(sc.FailAt+1)*interval, func() bool { return failed }) && !s.Conn.Dead {
+						s.Conn.Dead = true
+						s.Conn.closedByUs = true
+						s.Conn.End.Close()
+						e.Fault("server.drops_connection")
+					}
+				})
+			}
 			e.Sleep(time.Duration(sc.FailAt)*interval + time.Duration(sc.Client.ConnectTimeout)*time.Second + 2*time.Second)
 			tEnd = lastDisconnected(s.W)
 			e.Sleep(3 * interval)
+			if sc.Reconnect {
+				// the reconnection from the callback takes a few round trips; then watch 3 intervals
+				e.Sleep(4*interval + 5*time.Second)
+			}
 		default:
 			e.Sleep(time.Duration(sc.EndAfterNs))
 			tFault = e.Now()
